@@ -287,7 +287,7 @@ func genC19(t *rapid.T) *CaseC19 {
 	for i := 0; i < n; i++ {
 		c.Calls = append(c.Calls, rapid.IntRange(0, len(c19Ops)-1).Draw(t, "op"))
 	}
-	if rapid.IntRange(0, 79).Draw(t, "fan?") == 0 {
+	if rapid.IntRange(0, 79).Draw(t, "fan?") == 41 {
 		c.Fan = rapid.IntRange(24, 200).Draw(t, "fan")
 	}
 	return c
@@ -689,5 +689,8 @@ func init() {
 			return []string{fanScope, "one storm: a slow clearance fit racing >= 9000 distinct cheap clearance fits on 8 goroutines (they continue until the slow call is done), then all of them again alone, most recent first (translation-invariance oracle)"}
 		},
 		ReplayRuns: 8,
+		// a workload is expensive and owns the scheduler: no re-checks under other GOMAXPROCS / after malformed calls /
+		// of early cases (the sequential properties do those)
+		NoRevisit: true,
 	})
 }
